@@ -170,7 +170,7 @@ void h_setSlot(void)           /* setSlot(i, v) against its contract (contracts/
     begin();
     c19_deep_snap(&d0);
     V_COVER(in_range(IN.slot) && c19_expected_msgs(IN.slot) == PS && IN.has_backend);
-    C19_SPLIT1(IN.slot, AutomationMgr_setSlot(&M, I, v_bits_f(IN.f)));
+    C19_SPLIT1C(IN.slot, AutomationMgr_setSlot(&M, I, v_bits_f(IN.f)));
     c19_deep_snap(&d1);
     frame_common();
     c19_check_setSlot_contract(&d0, &d1, IN.slot, IN.f);
